@@ -295,13 +295,16 @@ func (m msgServer) Acknowledgement(
 		)
 	}
 
-	// Perform application logic callback
-	_, err := cbs.OnAcknowledgementPacket(ctx, msg.Packet, msg.Acknowledgement)
-	if err != nil {
-		return nil, errorsmod.Wrap(
-			err,
-			"acknowledge packet callback failed",
-		)
+	// Perform application logic callback on the chain that sent the packet only:
+	// a relay chain passes the acknowledgement on without running application logic
+	if msg.Packet.GetSourceChain() == m.k.ClientKeeper.GetChainName(ctx) {
+		_, err := cbs.OnAcknowledgementPacket(ctx, msg.Packet, msg.Acknowledgement)
+		if err != nil {
+			return nil, errorsmod.Wrap(
+				err,
+				"acknowledge packet callback failed",
+			)
+		}
 	}
 
 	defer func() {
